@@ -230,7 +230,9 @@ async def find_deployment_id(name: str, force_suffix: bool = False) -> str:
         deployment_id = "d-" + deployment_id
     deployment_id = deployment_id[:max_length].rstrip("-")
     base_deployment_id = deployment_id
-    if len(deployment_id) < 3 or force_suffix:
+    # Names with fewer than three alphanumerics are too short to be meaningful
+    num_alphanumerics = len(re.findall(r"[a-z0-9]", name.lower()))
+    if num_alphanumerics < 3 or force_suffix:
         deployment_id = _append_random_suffix(deployment_id, max_length)
 
     # Try to find a deployment id that is not in use
